@@ -137,4 +137,84 @@ PredictLive(kind, phase, pt, pre, post) ==
   IF phase # "commit" \/ pt \notin DOMAIN StepOfPoint THEN pre
   ELSE LET ahead == {FieldOf[c] : c \in AheadAt(kind, StepPos(StepOfPoint[pt]))}
        IN  [f \in DOMAIN pre |-> IF f \in ahead THEN post[f] ELSE pre[f]]
+
+(***************************************************************************)
+(* C. READER SNAPSHOT ACQUISITION vs WRITER PUBLICATION (C06)              *)
+(***************************************************************************)
+\* ----------------------------- C / L0 -----------------------------------
+\* Every piece of state a read transaction holds is a snapshot of one component; the writer's
+\* commit publishes each component separately.  Version 0 = before the writer's transaction,
+\* 1 = after it.  The driver projects what the reader SAW as a record probe -> version
+\* (0, 1, or 9 when the answer matches neither state), each probe evaluated twice:
+\*   sch  schema knows the new attribute           (component schema)
+\*   dn   domain display name                      (component dinfo)
+\*   acp  access decision of the new profile       (component acp)
+\*   oa   OAuth2 client known                      (component oauth2)
+\*   ea   description of entry A, resident in the entry cache    (entry_cache, else sqlite)
+\*   eb   description of entry B, NOT resident in the entry cache (sqlite, unless published to the cache)
+\*   n2u  name -> uuid lookup of A's new name      (name_cache, else sqlite)
+\*   idx  equality-index search for A's new name   (idl_cache, else sqlite)
+Probes == {"sch", "dn", "acp", "oa", "ea", "eb", "n2u", "idx"}
+
+\* ----------------------------- C / L1 -----------------------------------
+\* C06: everything one read transaction observes comes from ONE committed state, and asking
+\* twice gives the same answer.
+SnapshotConsistent(o) == \A p, q \in DOMAIN o : o[p] = o[q]
+RepeatableRead(o1, o2) == o1 = o2
+
+\* ----------------------------- C / L2 -----------------------------------
+\* Steps of IdmServer::proxy_read -> QueryServer::read -> Backend::read -> IdlArcSqlite::read in
+\* program order, at the granularity of the H3 pause points: each step is the label the thread is
+\* paused at and the components it acquires when released (it then runs to the next label).
+\* SQLite: BEGIN DEFERRED takes no snapshot; the snapshot is fixed by the first statement that
+\* reads ("q.sql" = the reader's first query).
+Rs(l, c) == [l |-> l, c |-> c]
+ReaderSteps == <<
+  Rs("r.schema", {"schema"}), Rs("r.cid", {"cid"}), Rs("r.be", {}),
+  Rs("r.entry_cache", {"entry_cache"}), Rs("r.sqlite_begin", {}), Rs("r.idl_cache", {"idl_cache"}),
+  Rs("r.name_cache", {"name_cache"}), Rs("r.idx_exists", {"idx_exists"}), Rs("r.allids", {"allids"}),
+  Rs("r.be_meta", {"idxmeta", "ruv"}),
+  Rs("r.cfg", {"dinfo", "syscfg", "feature", "acp", "keys", "fcache"}),
+  Rs("r.oauth2", {"oauth2"}),
+  Rs("q.sql", {"sqlite"}) >>
+\* Steps of IdmServerProxyWriteTransaction::commit -> QueryServerWriteTransaction::commit ->
+\* BackendWriteTransaction::commit -> IdlArcSqliteWriteTransaction::commit (same convention).
+WriterSteps == <<
+  Rs("w.apps", {"apps"}), Rs("w.oauth2", {"oauth2"}), Rs("w.credsess", {}), Rs("w.o2prov", {}),
+  Rs("w.qs", {}), Rs("w.ts_max", {}), Rs("w.cid", {"cid"}), Rs("w.fcache", {"fcache"}),
+  Rs("w.cfg", {"schema", "dinfo", "syscfg", "feature", "phase", "dyngroup", "keys", "acp"}),
+  Rs("w.ruv_flush", {}), Rs("w.flush", {}), Rs("w.sql_commit", {"sqlite"}),
+  Rs("w.op_ts_max", {}), Rs("w.name_cache", {"name_cache"}), Rs("w.idx_exists", {"idx_exists"}),
+  Rs("w.idl_cache", {"idl_cache"}), Rs("w.allids", {"allids"}), Rs("w.maxid", {}), Rs("w.keyhandles", {}),
+  Rs("w.entry_cache", {"entry_cache"}), Rs("w.ruv", {"ruv"}), Rs("w.idxmeta", {"idxmeta"}) >>
+SnapComps == UNION {ReaderSteps[i].c : i \in 1..Len(ReaderSteps)}
+                \cup UNION {WriterSteps[i].c : i \in 1..Len(WriterSteps)}
+
+\* what each probe answers from, given the reader's snapshot vector rd (component -> 0/1):
+\* a cache that already holds the item answers; otherwise the SQLite snapshot answers.
+\* A is resident in the entry cache before the experiment, B is not; the writer's commit puts the
+\* new versions of everything it touched into the caches it publishes.
+ProbeVersion(rd) ==
+  [ sch |-> rd["schema"], dn |-> rd["dinfo"], acp |-> rd["acp"], oa |-> rd["oauth2"],
+    ea  |-> rd["entry_cache"],
+    eb  |-> IF rd["entry_cache"] = 1 THEN 1 ELSE rd["sqlite"],
+    n2u |-> IF rd["name_cache"] = 1 THEN 1 ELSE rd["sqlite"],
+    idx |-> IF rd["idl_cache"] = 1 THEN 1 ELSE rd["sqlite"] ]
+
+\* The same two programs at the granularity of the individual statements: the struct-literal
+\* acquisitions in Backend::read / QueryServer::read and the publication chain in
+\* QueryServerWriteTransaction::commit have no pause point between them (the hooks are add-only
+\* statements), so the vectors only these finer lists reach are hypotheses of the model that the
+\* driver cannot replay.
+Split(l, cs) == [i \in 1..Len(cs) |-> Rs(l, {cs[i]})]
+RECURSIVE Flat(_)
+Flat(ss) == IF ss = <<>> THEN <<>> ELSE Head(ss) \o Flat(Tail(ss))
+ReaderStepsFine == Flat([i \in 1..Len(ReaderSteps) |->
+    IF ReaderSteps[i].l = "r.be_meta" THEN Split("r.be_meta", <<"idxmeta", "ruv">>)
+    ELSE IF ReaderSteps[i].l = "r.cfg" THEN Split("r.cfg", <<"dinfo", "syscfg", "feature", "acp", "keys", "fcache">>)
+    ELSE <<ReaderSteps[i]>>])
+WriterStepsFine == Flat([i \in 1..Len(WriterSteps) |->
+    IF WriterSteps[i].l = "w.cfg"
+    THEN Split("w.cfg", <<"schema", "dinfo", "syscfg", "feature", "phase", "dyngroup", "keys", "acp">>)
+    ELSE <<WriterSteps[i]>>])
 =============================================================================
